@@ -1,8 +1,144 @@
-(* Properties_C45.v — C45: http_access decisions are enforced end to end.  Statements only. *)
-Require Import SquidV.Bytes SquidV.AccessModel SquidV.AccessProofs.
+(* Properties_C45.v — C45: http_access decisions are enforced end to end.
+   Statements only; proofs live in AccessProofs.v (which composes AcldomProofs.v (C41), AclipProofs.v (C42),
+   IntrangeProofs.v (C43) and AcltreeProofs.v (C44)).
+
+   Vocabulary (AccessModel.v / AccessProofs.v):
+     line            one squid.conf line: LAcl name type values | LAccess allow [(negated, name)...]
+     access_run cfg env reqs
+                     the model of the running proxy: parse the predefined "acl all src all" and the lines of cfg
+                     (ParseNamedAcl: later lines of a name append to the same object; aclParseAccessLine), add the
+                     default "http_access deny all" when no rule exists, then serve the requests ONE AFTER THE OTHER
+                     on the same ACL objects (every lookup re-shapes a splay tree or reorders the method list):
+                     rule walk, first matching rule wins, else the reverse of the last action; allowed -> OForward,
+                     otherwise ODeny403 (ERR_ACCESS_DENIED, nothing forwarded). None = squid refuses the configuration.
+     line_ok         the quantifier of the property: src/dst values are IPv4 words/addresses/prefixes/ranges without
+                     bits below the mask and prefix length 1..32 (iptok_ok); dstdomain values non-empty; port values
+                     free of NUL and white space; method values that are not proper prefixes of a registered method
+                     name (meth_tok_exact)
+     req_ok          client and resolved addresses are 32-bit, the URL port is 0..65535
+     ref_acl         set semantics of a named ACL: the union over ALL values of ALL its lines of
+                       src: the client address lies in the value (ip_in: plain interval arithmetic)
+                       dst: some resolved address of the URL host lies in the value
+                       dstdomain: the URL host, or for a numeric host its reverse name ("none" if it has none),
+                                  matches the value (C41's dom_match: ".x" = x and its sub-domains, else equality,
+                                  case-insensitive)
+                       port: the URL port lies in the listed range (C43's tok_range)
+                       method: the request method equals the value read as a method (registered names
+                               case-insensitively, extension methods byte for byte)
+     ref_allows      the reference first-match evaluation: the action of the first non-empty http_access line all of
+                     whose literals hold ('!' = does not match); the reverse of the last line's action when none
+                     applies; "deny all" when there is no such line. *)
+Require Import SquidV.Bytes SquidV.SplayModel SquidV.AccessModel SquidV.AccessProofs.
+Require SquidV.AcltreeModel.
 Local Open Scope N_scope.
 
-Theorem C45_method_prefix_witness_run :
-  access_run wit_cfg (mkEnv [] []) [wit_req b_GE; wit_req b_GET] = Some [OForward; ODeny403].
-Proof. exact wit_run. Qed.
-Print Assumptions C45_method_prefix_witness_run.
+(* ===== the property ===== *)
+
+(* For EVERY well-formed access section, every environment of static host entries and every SEQUENCE of requests
+   (the ACL objects are shared and mutated by every lookup), each request is forwarded iff the reference
+   first-match evaluation allows it, and otherwise is answered 403 without being forwarded.
+   _partial: method values that are proper prefixes of registered method names are excluded (see _refuted below),
+   as are IP values with host bits / prefix length 0 (C42: "acl x src 127.0.0.1/24" matches nothing). *)
+Theorem C45_forwarded_iff_reference_allows_partial : forall cfg e reqs outs,
+  Forall line_ok cfg -> Forall (req_ok e) reqs -> access_run cfg e reqs = Some outs ->
+  Forall2 (fun rq o => (o = OForward <-> ref_allows cfg e rq) /\ (o = ODeny403 <-> ~ ref_allows cfg e rq)) reqs outs.
+Proof. exact access_correct. Qed.
+
+(* The statement without the restriction on method values is false for the code as it is:
+   "acl m method GE" stores GET (HttpRequestMethodXXX compares only strlen("GE") bytes of each registered name), so
+   with "http_access deny m / http_access allow all" the method GE is forwarded although the access list denies
+   it, and GET is denied although the access list allows it. *)
+Theorem C45_forwarded_iff_reference_allows_refuted :
+  Forall (fun t => IntrangeProofs.clean t = true /\ t <> []) [b_GE] /\ ~ meth_tok_exact b_GE /\
+  meth_parse_cfg b_GE = meth_parse_req b_GET /\
+  access_run wit_cfg wit_env [wit_req b_GE] = Some [OForward] /\ ~ ref_allows wit_cfg wit_env (wit_req b_GE) /\
+  access_run wit_cfg wit_env [wit_req b_GET] = Some [ODeny403] /\ ref_allows wit_cfg wit_env (wit_req b_GET).
+Proof. exact method_prefix_witness. Qed.
+
+(* ===== components ===== *)
+
+(* Reading the configuration: every named ACL object holds exactly what parsing ALL values of ALL lines of its name
+   from scratch yields (however the lines are interleaved with other lines), the rule list is the list of
+   http_access lines that name at least one ACL, or "deny all", and every literal names an existing object. *)
+Theorem C45_configuration_reading : forall cfg s, cfg_parse cfg = Some s ->
+  (forall name, match find_acl name (c_acls s) with
+                | Some a => a_name a = name /\ acl_type (full cfg) name = Some (a_type a) /\
+                            parse_into (empty_data (a_type a)) (acl_ips (full cfg) name) (acl_txt (full cfg) name) = Some (a_data a)
+                | None => acl_type (full cfg) name = None
+                end) /\
+  c_rules s = ref_rules (full cfg) /\
+  (forall r t, In r (c_rules s) -> In t (snd r) -> find_acl (snd t) (c_acls s) <> None).
+Proof. exact cfg_parse_parsed. Qed.
+
+(* a configuration that squid accepts gives every name one type *)
+Theorem C45_accepted_configuration_is_typed : forall cfg s, cfg_parse cfg = Some s ->
+  forall n ty ips txt, In (LAcl n ty ips txt) (full cfg) -> acl_type (full cfg) n = Some ty.
+Proof. exact cfg_parse_typed. Qed.
+
+(* One literal, in ANY state the object may have been left in by earlier lookups: the answer is the set semantics,
+   and the object (and the checklist's cached reverse name) stays valid for the next lookup. *)
+Theorem C45_named_acl_matches_iff_set_semantics : forall cfg e rq rdns name a,
+  typed cfg -> Forall line_ok cfg -> req_ok e rq -> rdns_ok e rq rdns ->
+  acl_type cfg name = Some (a_type a) -> data_inv cfg name (a_type a) (a_data a) ->
+  data_inv cfg name (a_type a) (snd (fst (leaf_eval e rq rdns a))) /\
+  rdns_ok e rq (snd (leaf_eval e rq rdns a)) /\
+  (fst (fst (leaf_eval e rq rdns a)) = true <-> ref_acl cfg e rq name).
+Proof. exact leaf_ok. Qed.
+
+(* the invariant is established by parsing and kept by serving a request *)
+Theorem C45_parsing_establishes_invariant : forall cfg s, Forall line_ok cfg -> cfg_parse cfg = Some s -> st_inv cfg s.
+Proof. exact cfg_parse_inv. Qed.
+
+Theorem C45_request_keeps_invariant_and_decides : forall cfg e s rq,
+  typed (full cfg) -> Forall line_ok (full cfg) -> req_ok e rq -> st_inv cfg s ->
+  st_inv cfg (snd (check e s rq)) /\ (access_done (fst (check e s rq)) = OForward <-> ref_allows cfg e rq).
+Proof. exact check_ok. Qed.
+
+(* the method list of an ACL is reordered by lookups (move to front) but keeps its meaning *)
+Theorem C45_method_list_reordering_harmless : forall toks vs m, meth_inv toks vs ->
+  match meth_find vs m [] with
+  | Some vs' => meth_inv toks vs' /\ exists tok, In tok toks /\ meth_eq (meth_parse_cfg tok) m = true
+  | None => ~ exists tok, In tok toks /\ meth_eq (meth_parse_cfg tok) m = true
+  end.
+Proof. exact meth_lookup. Qed.
+
+(* no http_access line that names an ACL: every request is denied (DEFAULT_IF_NONE deny all) *)
+Theorem C45_no_rules_deny_all : forall cfg e rq, raw_rules cfg = [] -> ~ ref_allows cfg e rq.
+Proof. exact no_rules_deny. Qed.
+
+(* ===== composition with C44: the checklist machine on the same tree ===== *)
+
+(* The decision of C44's ACLChecklist machine (nonBlockingCheck, suspend/resume through breadcrumbs) on the Acl::Tree
+   of the configuration, every literal occurrence being a leaf that answers what the walk's literal answers and is
+   free to go asynchronous any number of times (sched), is ALLOWED iff the reference allows the request: which lookups
+   suspend, and how often, cannot change who is forwarded. *)
+Theorem C45_checklist_machine_decides_the_same : forall cfg e s rq sched,
+  Forall line_ok cfg -> req_ok e rq -> cfg_parse cfg = Some s ->
+  exists c a, AcltreeModel.run_check AcltreeModel.MNonBlocking (tree_of (c_rules s)) [] (scripts_of e s rq sched) = Some c /\
+    AcltreeModel.err c = false /\ AcltreeModel.cbk c = Some a /\
+    (AcltreeModel.acode a = AcltreeModel.Allowed <-> ref_allows cfg e rq).
+Proof. exact checklist_machine_agrees. Qed.
+
+(* ===== the hypotheses are satisfiable / examples ===== *)
+Example C45_ex_config_ok : Forall line_ok ex_cfg.
+Proof. exact ex_cfg_ok. Qed.
+Example C45_ex_requests_ok : Forall (req_ok ex_env)
+  [ex_req 2130706434 b_GET 80; ex_req 2130706437 b_GET 80; ex_req 2130706437 [72; 69; 65; 68] 8001; ex_req 2130706441 [80; 79; 83; 84] 9000].
+Proof. exact ex_reqs_ok. Qed.
+(* 127.0.0.2 GET :80 forwarded; 127.0.0.5 GET :80 denied by "deny !a g"; 127.0.0.5 HEAD :8001 forwarded;
+   127.0.0.9 POST :9000 denied by the implicit reverse of the last "allow" *)
+Example C45_ex_run : access_run ex_cfg ex_env
+  [ex_req 2130706434 b_GET 80; ex_req 2130706437 b_GET 80; ex_req 2130706437 [72; 69; 65; 68] 8001; ex_req 2130706441 [80; 79; 83; 84] 9000]
+  = Some [OForward; ODeny403; OForward; ODeny403].
+Proof. exact ex_run. Qed.
+
+Print Assumptions C45_forwarded_iff_reference_allows_partial.
+Print Assumptions C45_forwarded_iff_reference_allows_refuted.
+Print Assumptions C45_configuration_reading.
+Print Assumptions C45_accepted_configuration_is_typed.
+Print Assumptions C45_named_acl_matches_iff_set_semantics.
+Print Assumptions C45_parsing_establishes_invariant.
+Print Assumptions C45_request_keeps_invariant_and_decides.
+Print Assumptions C45_method_list_reordering_harmless.
+Print Assumptions C45_no_rules_deny_all.
+Print Assumptions C45_checklist_machine_decides_the_same.
